@@ -2,7 +2,7 @@
 from __future__ import annotations
 import ast
 from typing import List, Dict, Optional, Tuple
-from ..model import Model, FuncInfo, own_nodes, norm_stmt, AnalysisError, AnchorError, enclosing_stmt, ancestors, has_form, under, path_conditions
+from ..model import Model, FuncInfo, own_nodes, norm_stmt, AnalysisError, AnchorError, enclosing_stmt, ancestors, has_form, under, path_conditions, case_split
 from ..report import RuleResult
 from ..flow import function_defs, names_loaded
 from ..cfg import CFG, stmt_dominates
@@ -59,12 +59,10 @@ class _Seq:
 def _reduction(model: Model, R: RuleResult):
     f = model.func(IMPL, "exacteig")
     pA, pM = f.params()[0], f.params()[3]
-    branches = [s for s in f.node.body if isinstance(s, ast.If) and "%s is None" % pM in ast.unparse(s.test)]
-    if len(branches) != 1:
+    cs = case_split(f.node.body, "%s is None" % pM)
+    if cs is None:
         raise AnalysisError("C05-R: exacteig no longer branches on `M is None`")
-    br = branches[0]
-    gen = br.orelse if ast.unparse(br.test) == "%s is None" % pM else br.body
-    std = br.body if gen is br.orelse else br.orelse
+    std, gen, _before, br = cs
     leaves = {"%s.fullmatrix()" % pA: "A", "%s.fullmatrix()" % pM: "M"}
     pre = _Seq(dict(leaves))
     for s in f.node.body:
